@@ -36,7 +36,7 @@ Stored(v) ==
                                                               \* object is a tuple / str subclass as well
     [] v = "tag"   -> <<"t:other">>
     [] v \in {"tfy", "itfy"} -> <<"f:obj">>
-    [] v = "list"  -> <<"s:a", "s:1">>
+    [] v = "list"  -> <<"s:a", "s:1", "s:a">>      \* [sep, 1, sep] with sep = ["a"]: the same inner list object twice
     [] v \in {"dep", "depeq"} -> <<"d:shared">>   \* every display appends, also of a dependency that is already a child
     [] v = "false" -> <<"s:False">>
     [] v = "zerof" -> <<"s:0.0">>
